@@ -46,3 +46,5 @@ def run(ctx):
     R3.r01_13_extras_partition(ctx, 'R02.18')
     R3.r02_19_tag_checks_read_the_document(ctx, 'R02.19')
     S.r01_3_recursion(ctx)
+    from . import memo_rules as M
+    M.memo_sound(ctx, 'R02.M')
